@@ -27,6 +27,8 @@ JUSTIFIED = {
     'evaluate__format_number': [('prefix +=', 'prefix/suffix are str values: += rebinds the local name'),
                                 ('suffix +=', 'prefix/suffix are str values: += rebinds the local name'),
                                 ('fmt_tokens', 'fmt_tokens is the fresh list returned by str.split / re.split on a str')],
+    'evaluate__value_comparison_operators': [('operands[k].tzinfo = context.timezone',
+                                              'operands[k] was rebound to copy(operands[k]) by the statement before (the analysis does not track single list slots)')],
     'serialize_to_xml': [('cks[0] =', 'cks is the new list returned by ElementTree.tostringlist in this call')],
     'serialize_to_json': [('chunks[0] =', 'chunks is the new list returned by ElementTree.tostringlist in this call'),
                           ('self[None] = None', 'self is the MapEncodingDict under construction (__init__ of the local class)'),
